@@ -697,6 +697,26 @@ func (e *factEngine) intrinsic(v ssa.Value, depth int) factSet {
 	if isIntType(v.Type()) && isUnsigned(v.Type()) {
 		f.add("ge0")
 	}
+	// the index of `for i := range s` / `for i, x := range s`: go/ssa counts
+	// it as phi[-1, i] + 1, so it is never negative
+	if b, ok := v.(*ssa.BinOp); ok && b.Op == token.ADD {
+		if one, isC := constInt(b.Y); isC && one == 1 {
+			if phi, ok := b.X.(*ssa.Phi); ok && len(phi.Edges) == 2 {
+				start, back := false, false
+				for _, e := range phi.Edges {
+					if c, isC := constInt(e); isC && c == -1 {
+						start = true
+					}
+					if e == ssa.Value(b) {
+						back = true
+					}
+				}
+				if start && back {
+					f.add("ge0")
+				}
+			}
+		}
+	}
 	switch x := v.(type) {
 	case *ssa.Const:
 		if n, ok := constInt(x); ok {
